@@ -27,16 +27,16 @@ theorem idents_unique' {s : N} (h : NsInv s) (p : El) (hp : s.hasTbl p = true) (
 macro "ns_tac" : tactic => `(tactic| (constructor <;> grind [List.nodup_append, nodup_filter', Rec.get, Rec.set]))
 
 
-theorem setDefault_nsinv (s : N) (p) (h : NsInv s) : NsInv (step s (.setDefault p)).1 := by
+theorem setDefault_nsinv (s : N) (p) (h : NsInv s) : NsInv (stepCore s (.setDefault p)).1 := by
   obtain ⟨h1,h2,h3,h4,h5⟩ := h
-  simp only [step]
+  simp only [stepCore]
   exact ⟨h1,h2,h3,h4,h5⟩
 
-theorem detach_nsinv (s : N) (p c) (h : NsInv s) : NsInv (step s (.detach p c)).1 := by
+theorem detach_nsinv (s : N) (p c) (h : NsInv s) : NsInv (stepCore s (.detach p c)).1 := by
   have U3 := names_unique' h
   have U4 := idents_unique' h
   obtain ⟨h1,h2,h3,h4,h5⟩ := h
-  simp only [step, N.tblRemove]
+  simp only [stepCore, N.tblRemove]
   split
   · exact ⟨h1,h2,h3,h4,h5⟩
   · ns_tac
@@ -50,18 +50,18 @@ theorem removeKey_nsinv (s : N) (e k) (h : NsInv s) : NsInv (s.removeKey e k) :=
   | none => simp only []; cases k <;> ns_tac
   | some p => simp only []; cases k <;> ns_tac
 
-theorem delKey_nsinv (s : N) (e k) (h : NsInv s) : NsInv (step s (.delKey e k)).1 := by
-  simp only [step]; split
+theorem delKey_nsinv (s : N) (e k) (h : NsInv s) : NsInv (stepCore s (.delKey e k)).1 := by
+  simp only [stepCore]; split
   · exact h
   · exact removeKey_nsinv s e k h
 
-theorem popKey_nsinv (s : N) (e k) (h : NsInv s) : NsInv (step s (.popKey e k)).1 := by
-  simp only [step]; split
+theorem popKey_nsinv (s : N) (e k) (h : NsInv s) : NsInv (stepCore s (.popKey e k)).1 := by
+  simp only [stepCore]; split
   · exact h
   · exact removeKey_nsinv s e k h
 
-theorem delNameProp_nsinv (s : N) (e) (h : NsInv s) : NsInv (step s (.delNameProp e)).1 := by
-  simp only [step]; split
+theorem delNameProp_nsinv (s : N) (e) (h : NsInv s) : NsInv (stepCore s (.delNameProp e)).1 := by
+  simp only [stepCore]; split
   · exact h
   · exact removeKey_nsinv s e .name h
 
